@@ -466,8 +466,10 @@ pub fn c17(args: &Args, reg: &[TypeEntry], log: &mut Log) {
                     let full = w.root.join(&rel);
                     let ident = (reg[op.ty].ident)();
                     let recorded = verif::registry_snapshot().get(&full).map_or(false, |names| names.contains(&ident));
-                    // only meaningful when the file exists, was written in this registry lifetime, and this type is not in it yet
-                    if !full.is_file() || recorded || !verif::registry_snapshot().contains_key(&full) {
+                    // only meaningful when the file exists and was written in this registry lifetime - by another type of the
+                    // file (the call has to merge into it) or by this very type (the call has to notice that its file is gone)
+                    let _ = recorded;
+                    if !full.is_file() || !verif::registry_snapshot().contains_key(&full) {
                         skipped += 1;
                         break;
                     }
@@ -533,6 +535,7 @@ pub fn c17(args: &Args, reg: &[TypeEntry], log: &mut Log) {
             did_inject = true;
             *injected.entry(format!("{obstacle:?}")).or_default() += 1;
             let with_obstacle = snapshot(&w.root);
+            let registry_before = verif::registry_snapshot();
             let r = run_op(reg, &faulted_op);
             trace.push(json!({"op": faulted_op.describe(reg), "obstacle": format!("{obstacle:?}"), "result": r.json()}));
             match &r {
@@ -563,7 +566,9 @@ pub fn c17(args: &Args, reg: &[TypeEntry], log: &mut Log) {
                 let (Cleanup::RemoveDir(path) | Cleanup::RemoveFile(path)) = c else { continue };
                 let snap = verif::registry_snapshot();
                 let ident = (reg[faulted_op.ty].ident)();
-                if snap.get(path).map_or(false, |names| names.contains(&ident)) && problem.is_none() {
+                // (a name the registry held before the call was recorded by an earlier, successful write)
+                let was_there = registry_before.get(path).map_or(false, |names| names.contains(&ident));
+                if snap.get(path).map_or(false, |names| names.contains(&ident)) && !was_there && problem.is_none() {
                     problem = Some(("failed-write-recorded".into(), format!("{ident} is recorded for {path:?} although the write failed")));
                 }
             }
